@@ -49,7 +49,8 @@ MACHINE_LE = sys.byteorder == "little"
 MULTI = ["i2", "i4", "i8", "u2", "u4", "u8", "f2", "f4", "f8", "f16", "c8", "c16", "c32"]
 SINGLE = ["i1", "u1"]
 STRS = ["S1", "S3", "S8"]
-TYPES = {"M": MULTI, "B": SINGLE, "S": STRS, "N": MULTI}     # N: nested record [('p', multi-byte), ('q', 'S2')]
+UNIS = ["U1", "U2", "U5"]                                    # unicode strings: 4-byte code points, they HAVE a byte order
+TYPES = {"M": MULTI, "B": SINGLE, "S": STRS, "N": MULTI, "U": UNIS}     # N: nested record [('p', multi-byte), ('q', 'S2')]
 SUBSHAPES = [(), (2,), (2, 2), (1,)]
 SHAPES = [(3,), (), (2, 2), (1,), (1, 3), (4,)]
 NAMES = ["a", "b", "c", "d", "e", "f", "g", "h"]
@@ -115,6 +116,8 @@ def logical_values(t, m):
         return ((1.5 + e) + 1j * (2.5 + e)).astype(dt)
     if dt.kind == "S":
         return np.array([bytes(97 + (int(j) + b) % 26 for b in range(dt.itemsize)) for j in e], dtype=dt)
+    if dt.kind == "U":
+        return np.array(["".join(chr(97 + (int(j) + b) % 26) for b in range(dt.itemsize // 4)) for j in e], dtype=dt)
     raise MachineryError("no logical values for " + t)
 
 
@@ -603,8 +606,10 @@ def struct_class(rec):
     kinds = rec["kinds"]
     if rec["plain"]:
         return "plain:" + kinds[0]
-    nm = sum(1 for k in kinds if k == "M")
-    if "N" in kinds:
+    nm = sum(1 for k in kinds if k in ("M", "U"))
+    if "U" in kinds and "M" not in kinds and "N" not in kinds:
+        c = "struct:byte_order_only_in_unicode_fields"
+    elif "N" in kinds:
         c = "struct:nested_record+multibyte" if nm else "struct:multibyte_only_in_nested_record"
     elif nm == len(kinds):
         c = "struct:all_multibyte"
@@ -882,12 +887,14 @@ def shrink_sessions(ctx, todo, rounds=3):
 # ---- bounds ---------------------------------------------------------------------------
 ALLSP = {"<", ">", "=", "|"}
 ALLK = {"M", "B", "S", "N"}
+ALLKU = ALLK | {"U"}
+ORDERLESS_U = {"U", "S", "B"}        # with AloneWithOrderless: a unicode field, in every position, alone with order-less fields
 FLAT = {"M", "B", "S"}
 VIEWS = set(LAYOUTS) - {"contig"}
 ALLFN = {"native", "big", "little", "swap", "rnative"}
 RO = {"ro", "roview", "frombuf"}
 BASE = dict(WithPlain=True, Kinds=ALLK, Need=set(), Spells=ALLSP, Layouts={"contig"}, Writes={"w"}, Fns=ALLFN, CallerOps=set(),
-            InplaceFirst=False, MaxChains=1, ProbeDepth=1, Fills=set())
+            InplaceFirst=False, MaxChains=1, ProbeDepth=1, Fills=set(), AloneWithOrderless=False)
 FILLS = [0, 1, 127, 128, 129, 300]      # new distinct dtypes converted between the first chain of a session and its probes
 
 
@@ -907,8 +914,11 @@ def model_runs(tier):
     if tier == "quick":
         return [
             # one step, one field: every concrete type / shape on owning arrays; every type on every kind of view
-            (c(MinFields=1, MaxFields=1, MaxDepth=1), "sweep"),
-            (c(MinFields=1, MaxFields=1, MaxDepth=1, Layouts=VIEWS, Spells={"<", ">"}), "vsweep"),
+            (c(MinFields=1, MaxFields=1, MaxDepth=1, Kinds=ALLKU), "sweep"),
+            (c(MinFields=1, MaxFields=1, MaxDepth=1, Kinds=ALLKU, Layouts=VIEWS, Spells={"<", ">"}), "vsweep"),
+            # tables whose only field with a byte order is a unicode field, in every position: one step, and two (idempotence)
+            (c(MinFields=1, MaxFields=3, MaxDepth=1, WithPlain=False, Kinds=ORDERLESS_U, AloneWithOrderless=True, Spells={"<", ">", "="}), 1),
+            (c(MinFields=1, MaxFields=2, MaxDepth=2, WithPlain=False, Kinds=ORDERLESS_U, AloneWithOrderless=True, Spells={"<", ">"}), 1),
             # chains of two conversions: owning arrays of <= 2 fields; views (first step in place, so that the second
             # conversion is applied to the same view)
             (c(MinFields=1, MaxFields=2, MaxDepth=2), 1),
@@ -927,8 +937,10 @@ def model_runs(tier):
                CallerOps=set(CALLER)), 1),
         ]
     return [
-        (c(MinFields=1, MaxFields=1, MaxDepth=1), "sweep"),
-        (c(MinFields=1, MaxFields=1, MaxDepth=1, Layouts=VIEWS), "vsweep*"),
+        (c(MinFields=1, MaxFields=1, MaxDepth=1, Kinds=ALLKU), "sweep"),
+        (c(MinFields=1, MaxFields=1, MaxDepth=1, Kinds=ALLKU, Layouts=VIEWS), "vsweep*"),
+        (c(MinFields=1, MaxFields=3, MaxDepth=2, WithPlain=False, Kinds=ORDERLESS_U, AloneWithOrderless=True), 1),
+        (c(MinFields=2, MaxFields=3, MaxDepth=2, Kinds={"U", "M", "S", "N"}, Need={"U"}, Spells={"<", ">"}), 1),
         (c(MinFields=1, MaxFields=3, MaxDepth=3, Kinds=FLAT, Spells={"<", ">"}), 1),
         (c(MinFields=1, MaxFields=3, MaxDepth=2, Spells={"=", "|"}), 1),
         (c(MinFields=1, MaxFields=2, MaxDepth=3, Need={"N"}, Spells={">"}), 1),
@@ -958,9 +970,10 @@ def sim_runs(tier):
 
 
 def describe(c):
-    return "fields %d..%d%s kinds %s%s spells %s layouts %s%s%s%s depth %d%s" % (
+    return "fields %d..%d%s kinds %s%s%s spells %s layouts %s%s%s%s depth %d%s" % (
         c["MinFields"], c["MaxFields"], "+plain" if c["WithPlain"] else "", "".join(sorted(c["Kinds"])),
-        (" incl. " + "".join(sorted(c["Need"]))) if c["Need"] else "", "".join(sorted(c["Spells"])),
+        (" incl. " + "".join(sorted(c["Need"]))) if c["Need"] else "", " (one ordered field)" if c["AloneWithOrderless"] else "",
+        "".join(sorted(c["Spells"])),
         "contig" if c["Layouts"] == {"contig"} else "views" if c["Layouts"] == VIEWS else "all" if c["Layouts"] == set(LAYOUTS)
         else ",".join(sorted(c["Layouts"])),
         "" if c["Writes"] == {"w"} else " writeability " + ",".join(sorted(c["Writes"])),
@@ -976,7 +989,8 @@ THEOREMS = ["SpecAccepted", "InitAccepted", "ValuePreservedThm", "ValueCorrectTh
             "MechRefines", "SessionFreshThm", "SessionThm", "MemoSilent"]
 ACTIONS = ["ChooseKinds", "ChooseSpell", "ChooseLayout", "ToNative", "ToBig", "ToLittle", "Swap", "RecfileNativeInplace"]
 CALLER_ACTIONS = ["Fresh", "MutNames", "MutShape", "MutLock"]
-MECH = dict(FixedDetect=True, NestedDetect=True, RetypeAlways=True, SwapFirst=True, CacheDtype=False, Memo=False, MemoKeep=2)
+MECH = dict(FixedDetect=True, NestedDetect=True, UnicodeDetect=True, RetypeAlways=True, SwapFirst=True, CacheDtype=False, Memo=False,
+            MemoKeep=2)
 
 
 def sweep_concs(init, mode, salt):
@@ -1001,7 +1015,7 @@ def random_chains(rng, n, start_id):
     for k in range(n):
         plain = rng.random() < 0.2
         nf = 1 if plain else rng.choice([1, 2, 3, 4, 5, 6, 8])
-        kinds = [rng.choice(["M", "M", "B", "S"] if plain else ["M", "M", "B", "S", "N"]) for _ in range(nf)]
+        kinds = [rng.choice(["M", "M", "B", "S", "U"] if plain else ["M", "M", "B", "S", "N", "U"]) for _ in range(nf)]
         init = {"plain": plain, "kinds": kinds, "spell": rng.choice(["<", ">", "=", "|"]),
                 "layout": rng.choice(LAYOUTS + ["contig"]), "wr": rng.choice(["w", "w", "w", "ro", "roview", "frombuf"])}
         ops = []
@@ -1098,6 +1112,7 @@ def run(ctx):
     hist = dict(full, MinFields=1, MaxFields=2, WithPlain=False, Kinds={"M", "S"}, Spells={">", "="}, Layouts={"contig"},
                 Fns={"swap", "native"}, CallerOps=set(CALLER), MaxDepth=3 if ctx.quick else 4)
     other = dict(full, MachineLE=not MACHINE_LE, MaxDepth=2, Layouts={"strided"} if ctx.quick else set(LAYOUTS))
+    uni = dict(full, Kinds={"U", "M", "S", "B"}, Need={"U"}, MaxFields=2 if ctx.quick else 3, MaxDepth=2)
     # the world: sessions of up to 3 chains with fillers in between, mechanism state carried along
     world = dict(full, MinFields=1, MaxFields=1, WithPlain=False, Kinds={"M"} if ctx.quick else {"M", "S"}, Spells={">"}, Layouts={"contig"},
                  Fns={"big", "swap"}, CallerOps={"mut_names", "mut_shape"}, MaxDepth=2, ProbeDepth=1, MaxChains=3, Fills={0, 1, 2})
@@ -1110,6 +1125,7 @@ def run(ctx):
             ("histories with caller steps: second table, rename, reshape, lock",
              hist, ["ChooseKinds", "ChooseSpell", "ChooseLayout", "ToNative", "Swap", "Reject"] + CALLER_ACTIONS),
             ("other machine order", other, ACTIONS),
+            ("unicode fields next to numeric and order-less fields", uni, ACTIONS),
             ) + (() if ctx.quick else (
             ("other machine order, non-writable arrays, refusals", dict(other, MaxFields=1, Writes=RO, Layouts={"contig", "strided"}),
              ACTIONS + ["Reject"]),)):
@@ -1133,6 +1149,8 @@ def run(ctx):
     deviations = () if dev else (
         ("unrepaired order detection (fields without byte order decisive)", small, dict(FixedDetect=False), "MechRefines"),
         ("order detection blind to nested records", small, dict(NestedDetect=False), "MechRefines"),
+        ("order detection taking unicode fields for fields without byte order", dict(small, Kinds={"U", "S"}), dict(UnicodeDetect=False),
+         "MechRefines"),
         ("dtype assigned only to contiguous arrays, a re-typed view returned otherwise", small, dict(RetypeAlways=False), "MechRefines"),
         ("dtype assigned before the swap that a read-only array refuses", small, dict(SwapFirst=False), "MechRefines"),
         ("swapped dtype object memoised per source dtype", leak, dict(CacheDtype=True), "LineageThm"),
@@ -1232,8 +1250,7 @@ def run(ctx):
         sjobs.append([(rid + 1 + i, init, ops, conc) for i, (init, ops, conc) in enumerate(sn)])
         rid += len(sn)
     srecs = [r for part in fresh_sessions(ctx, sjobs) for r in part]
-    if not any(is_suspect(r) and any(st["err"] != "none" for st in r["st"]) for r in srecs) and not dev:
-        raise MachineryError("no session with a refused call was executed")
+    sess_refused = any(st["err"] != "none" for r in srecs for st in r["st"])
     ctx.log("executed %d sessions (%d chains) in pristine processes: %d exported, first chains %s, %d probe chains"
             % (len(sessions), len(srecs), len(sess_cases), npre, nprobe))
     nmain = len(recs)
@@ -1257,11 +1274,13 @@ def run(ctx):
     for i in range(0, len(rrecs), chunk):
         judge(ctx, rrecs[i:i + chunk], "judge seeded longer chains %d.. (ByteOrderTrace)" % (i + 1), pending)
     flush(ctx, pending, recs + rrecs)
+    if not sess_refused and not ctx.violations and not dev:       # (vacuity guard; a broken tree may well refuse nothing)
+        raise MachineryError("no session with a refused call was executed")
     # 4. binding self-test: corrupted observations must be rejected, each by the clause it breaks
     selftest(ctx, [r for r in recs if r["id"] not in rejected], strict=not pending)
     ctx.rule = ("every chain of conversions exported from ByteOrderMC.tla (%s), each executed on a real array whose field types, "
                 "sub-array shapes, array shape (0-d..2-d) and layout variant rotate through the catalogue (%d multi-byte, %d single-byte, "
-                "%d string types, nested records; layouts %s with %d concrete variants); one-step chains on one-field arrays are run for "
+                "%d string types, 3 unicode types (kind U: they have a byte order), nested records; layouts %s with %d concrete variants); one-step chains on one-field arrays are run for "
                 "every type x shape (owning arrays) and every type (views); plus %d seeded chains of up to 8 steps on tables of up to 8 "
                 "fields in every layout and writeability, some with caller steps; histories include calls refused for non-writable arrays "
                 "(judged as stutter steps) and steps of the caller between conversions (second table of the same dtype, in-place rename "
